@@ -15,7 +15,7 @@ CLAIMED = {
     technique="Verus contracts on mechanically extracted function bodies + inductive history lemmas",
     design="2/C17"),
  "C01": dict(
-    text="Proof of the leaf operations the reference semantics bottoms out in and of the call/return protocol. Verus (unbounded, extracted every run): 21 Stack/StackFrame primitives against a Seq<Value> view, index_from, Deref; call_function_with_upvars (exact / partial / over-application layouts), the PartialApplication arm of do_call, the return statements of execute_ and ExecuteContext::exit_scope; binop/binop_int/binop_byte/binop_bool (operand order, failure leaves the stack untouched); interpreter arms Pop, Slide, Push, PushInt/Byte/Float, GetOffset, Split, ConstructVariant, ConstructRecord, ConstructArray, MakeClosure, TailCall (run-time effect = static effect; constructed value has exactly the top args values as fields in order); Instruction::adjust against the documented stack-effect table, ProgramCounter index safety, the && and || blocks of compile_primitive (short-circuit layout), the fix-up of a recursive value in compile_ (placeholder becomes NewRecord/NewVariant with the constructor's layout, the constructor becomes CloseData on the slot of the i-th binding of the group); core::Binder::into_expr (bindings of a record update / constructor application become nested lets in binding order) and the base case of the match compilation (the first matching equation wins). Kani (full domain): the 18 arithmetic/comparison interpreter arms (expression text parsed from execute_ every run) against Z / IEEE and the operator-name -> opcode table. Partial: translation to core and compile_ are not under contract.",
+    text="Proof of the leaf operations the reference semantics bottoms out in and of the call/return protocol. Verus (unbounded, extracted every run): 21 Stack/StackFrame primitives against a Seq<Value> view, index_from, Deref; call_function_with_upvars (exact / partial / over-application layouts), the PartialApplication arm of do_call, the return statements of execute_ and ExecuteContext::exit_scope; binop/binop_int/binop_byte/binop_bool (operand order, failure leaves the stack untouched); interpreter arms Pop, Slide, Push, PushInt/Byte/Float, GetOffset, Split, ConstructVariant, ConstructRecord, ConstructArray, MakeClosure, TailCall (run-time effect = static effect; constructed value has exactly the top args values as fields in order); Instruction::adjust against the documented stack-effect table, ProgramCounter index safety, the && and || blocks of compile_primitive (short-circuit layout), FunctionEnv::new_stack_var / push_stack_var (which slot a new local denotes), the fix-up of a recursive value in compile_ (placeholder becomes NewRecord/NewVariant with the constructor's layout, the constructor becomes CloseData on the slot of the i-th binding of the group); core::Binder::into_expr (bindings of a record update / constructor application become nested lets in binding order) and the base case of the match compilation (the first matching equation wins). Kani (full domain): the 18 arithmetic/comparison interpreter arms (expression text parsed from execute_ every run) against Z / IEEE and the operator-name -> opcode table. Partial: translation to core and compile_ are not under contract.",
     note="Trusted: env.rs stand-ins and rewrite rules listed in evidence; MultiplyInt/DivideInt references are core's checked_mul and the language's `/`; for arms/blocks/tails the wrapper signature is mine (free variables become parameters). Translator and PatternTranslator (other than Binder::into_expr and the no-variables base case), Compiler::compile_ (other than the two blocks of compile_primitive and the rec-value fix-up), the remaining interpreter arms, rename, implicits are unverified.",
     technique="Verus contracts on extracted bodies + generated Kani harnesses over the interpreter arm table",
     design="2/C01"),
@@ -30,8 +30,8 @@ CLAIMED = {
     technique="Kani harnesses on the real allocator + Verus contracts on extracted bodies",
     design="2/C07"),
  "C08": dict(
-    text="Partial proof: built-in operator fixity table (real OpTable::get, concrete enumeration, Kani); the span algebra (Span::new/to/between/until/with_*/subspan/from_offset, Location::shift; full u32 domain, Kani) that parser actions and 'spans delimit the text' are built from; and Verus contracts on text extracted every run: the shift/reduce step of the operator-precedence re-parse (lower precedence or equal+both-left reduces, higher or equal+both-right shifts, equal precedence with different associativity is reported as ConflictingFixities), the final fold of reparse (operators still pending group to the right, in order, over all operands; inductive invariant + lemma; the closing assertion and unwraps cannot fire), shrink_hidden_spans against a specification of where each expression kind visibly ends (singleton block flattening included), the fold step of the BlockExpr grammar action (taken from grammar.lalrpop: `e; rest` becomes Do { bound: e, body: rest } spanning start of e .. end of rest), the layout algorithm's context-stack operations (Contexts::push/pop, Offside::new) and its arm for an explicit `in` closing a let/type/rec context (body block opened at the location of the enclosing context, separator flag cleared, OpenBlock queued), and Tokenizer::block_comment with take_until (a block comment ends at the first `*/` behind its opening and scanning resumes right behind it; EOF error only if there is none; inductive invariants).",
-    note="No grouping theorem for reparse as a whole: the token loop that connects step and final fold, the Infixes iterator and error recovery are not under contract; `make_op` is uninterpreted. shrink unit: AST projected on spans and last sub-expressions, slice patterns desugared to length tests, Span::new's ordering contract assumed there (proved by the Kani harness). Of the layout algorithm only the explicit-in arm and the stack operations, of the tokenizer only block_comment/take_until (one-byte primitives bump/lookahead assumed, string operations of the doc-comment branch opaque), of the grammar only that one action are under contract; check_unindentation_limit is assumed not to change the stack. User-declared fixities overriding built-ins is only a structural Verus check (hash maps are intractable for CBMC).",
+    text="Partial proof: built-in operator fixity table (real OpTable::get, concrete enumeration, Kani); the span algebra (Span::new/to/between/until/with_*/subspan/from_offset, Location::shift; full u32 domain, Kani) that parser actions and 'spans delimit the text' are built from; and Verus contracts on text extracted every run: the shift/reduce step of the operator-precedence re-parse (lower precedence or equal+both-left reduces, higher or equal+both-right shifts, equal precedence with different associativity is reported as ConflictingFixities), the final fold of reparse (operators still pending group to the right, in order, over all operands; inductive invariant + lemma; the closing assertion and unwraps cannot fire), shrink_hidden_spans against a specification of where each expression kind visibly ends (singleton block flattening included), the fold step of the BlockExpr grammar action (taken from grammar.lalrpop: `e; rest` becomes Do { bound: e, body: rest } spanning start of e .. end of rest), the layout algorithm's context-stack operations (Contexts::push/pop, Offside::new) layout_token, and three pieces of layout_next_token: the implicit `in` (emitted at the token that ended the binding; body block at the location of the binding), the explicit `in` closing a let/type/rec context (body block opened at the location of the enclosing context, separator flag cleared, OpenBlock queued) and the block separator (a token at the column of a block that already holds an expression gets one separator in front of it), and Tokenizer::block_comment with take_until (a block comment ends at the first `*/` behind its opening and scanning resumes right behind it; EOF error only if there is none; inductive invariants).",
+    note="No grouping theorem for reparse as a whole: the token loop that connects step and final fold, the Infixes iterator and error recovery are not under contract; `make_op` is uninterpreted. shrink unit: AST projected on spans and last sub-expressions, slice patterns desugared to length tests, Span::new's ordering contract assumed there (proved by the Kani harness). Of the layout algorithm only the implicit-in statements, the explicit-in arm, the separator arm, layout_token and the stack operations, of the tokenizer only block_comment/take_until (one-byte primitives bump/lookahead assumed, string operations of the doc-comment branch opaque), of the grammar only that one action are under contract; check_unindentation_limit is assumed not to change the stack. User-declared fixities overriding built-ins is only a structural Verus check (hash maps are intractable for CBMC).",
     technique="Kani harnesses (complete: loop-free or concrete) on compiled code + Verus contracts on functions, blocks, arms and a grammar action extracted from the parser sources",
     design="2/C08"),
  "C20": dict(
